@@ -169,8 +169,69 @@ pub fn game_moves(spec: &GameSpec) -> Vec<String> {
     v
 }
 
-/// A root taken from a random game (biased to a maximum piece count when `max_pieces` < 32).
+/// A root whose game record ends in a repetition pattern (opponent: o1, we: u1, o1 back, u1
+/// back, o1 again): the driver's repetition filter removes u1 from the root list there. Checking
+/// first moves are preferred, which often leaves u1 as the only legal reply.
+pub fn repetition_root(corpus: &[String], rng: &mut Rng) -> Option<Root> {
+    use chess_oracle::Kind;
+    let quiet = |p: &Pos, m: &Mv| m.kind == Kind::Normal && o::kind(p.b[m.from as usize]) != o::PAWN && p.b[m.to as usize] == o::EMPTY;
+    let rev = |m: &Mv| Mv { from: m.to, to: m.from, promo: 0, kind: Kind::Normal };
+    for _ in 0..80 {
+        let base = if rng.chance(2, 3) {
+            let extra = 1 + rng.below(5);
+            gen::random_small_pos(rng, extra)
+        } else {
+            match random_root_plain(corpus, rng, 16).shadow() {
+                Some(p) => p,
+                None => continue,
+            }
+        };
+        let w = base.white_to_move;
+        let c0: Vec<Mv> = base.legal_moves().into_iter().filter(|m| quiet(&base, m)).collect();
+        if c0.is_empty() {
+            continue;
+        }
+        let checks: Vec<Mv> = c0.iter().copied().filter(|m| base.make(m).in_check(!w)).collect();
+        let o1 = if !checks.is_empty() && rng.chance(3, 4) { *rng.pick(&checks) } else { *rng.pick(&c0) };
+        let p1 = base.make(&o1);
+        let c1: Vec<Mv> = p1.legal_moves().into_iter().filter(|m| quiet(&p1, m)).collect();
+        if c1.is_empty() {
+            continue;
+        }
+        let u1 = *rng.pick(&c1);
+        let p2 = p1.make(&u1);
+        let o1r = rev(&o1);
+        if !p2.legal_moves().contains(&o1r) {
+            continue;
+        }
+        let p3 = p2.make(&o1r);
+        let u1r = rev(&u1);
+        if !p3.legal_moves().contains(&u1r) {
+            continue;
+        }
+        let p4 = p3.make(&u1r);
+        if !p4.legal_moves().contains(&o1) {
+            continue;
+        }
+        return Some(Root {
+            fen: fen::render6(&base, 0, 1),
+            moves: vec![o1.uci(), u1.uci(), o1r.uci(), u1r.uci(), o1.uci()],
+        });
+    }
+    None
+}
+
 pub fn random_root(corpus: &[String], rng: &mut Rng, max_pieces: usize) -> Root {
+    if rng.chance(1, 10) {
+        if let Some(r) = repetition_root(corpus, rng) {
+            return r;
+        }
+    }
+    random_root_plain(corpus, rng, max_pieces)
+}
+
+/// A root taken from a random game (biased to a maximum piece count when `max_pieces` < 32).
+pub fn random_root_plain(corpus: &[String], rng: &mut Rng, max_pieces: usize) -> Root {
     for _ in 0..50 {
         if max_pieces <= 10 && rng.chance(1, 2) {
             let p = gen::random_small_pos(rng, max_pieces.saturating_sub(2));
@@ -273,6 +334,10 @@ pub fn make_history(corpus: &[String], rng: &mut Rng, len: usize, max_depth: u8)
                     None => base.clone(),
                 }
             }
+            3 => match repetition_root(corpus, rng) {
+                Some(r) => r,
+                None => base.clone(),
+            },
             2 => {
                 // the same position handed over as text instead of by moves
                 match base.shadow() {
@@ -335,6 +400,18 @@ fn run_history(out: &mut Out, steps: &[HStep], prop: &str, hist_id: &str) {
             table.clear();
         }
         let legal: Vec<String> = shadow.legal_moves().iter().map(|m| m.uci()).collect();
+        {
+            let ms = &st.root.moves;
+            if ms.len() >= 5 && ms[ms.len() - 1] == ms[ms.len() - 5] {
+                out.add("roots_with_repetition_pattern", 1);
+                if legal.len() == 1 {
+                    out.add("roots_with_repetition_pattern_and_single_reply", 1);
+                }
+            }
+            if legal.len() == 1 {
+                out.add("single_reply_roots", 1);
+            }
+        }
         let r = search(out, &g, &mut table, st.limit, st.stop_at, 3_000_000, true);
         out.add("searches", 1);
         out.add("polls", r.polls);
@@ -431,6 +508,9 @@ pub fn run_hist(prop: &str, tier: &str, seed: u64) -> (Check, Agg) {
     ];
     chk.need("searches", agg.c("searches"), 200);
     chk.need("searches with a completed iteration", agg.c("searches_with_completed_iteration"), 100);
+    chk.need("roots with a repetition pattern in the game record", agg.c("roots_with_repetition_pattern"), 20);
+    chk.need("repetition pattern + single legal reply", agg.c("roots_with_repetition_pattern_and_single_reply"), 3);
+    chk.need("dead roots", agg.c("dead_roots") + agg.c("searches_on_dead_roots"), 0);
     if prop == "C18" {
         chk.need("pv lines replayed", agg.c("pv_lines"), 300);
     }
@@ -740,6 +820,27 @@ pub fn worker_c08(shard: usize, _nshards: usize, seed: u64, tier: &str, out: &mu
             c08_judge(out, &r, Some(n), &format!("limit {n} on {f}"), &format!("tiny|{f}|{n}"), case);
             out.end();
         }
+        // the same tiny position at the end of the longest game record the interface accepts:
+        // the search line, the PV walk and the capture extension all sit on top of 399 states
+        {
+            let spec = gen::GameSpec { start_fen: f.to_string(), policy: 5, max_plies: 398, seed: rng.next(), route: 0 };
+            let long_root = Root { fen: f.to_string(), moves: game_moves(&spec) };
+            if let Ok(gl) = long_root.game() {
+                for limit in [None, Some(255u8)] {
+                    let case = json!({"kind":"long-record","root":long_root.json(),"limit":limit,"profile":profile,"poll_budget":tiny_budget});
+                    out.begin(&case);
+                    let mut table = new_table();
+                    let r = search(out, &gl, &mut table, limit, 0, tiny_budget, limit.is_some());
+                    out.add("runs_after_longest_game_record", 1);
+                    out.maxi("longest_game_record", gl.len() as u64);
+                    c08_judge(out, &r, limit, &format!("search (limit {limit:?}) of {f} after a {}-ply game record", long_root.moves.len()), &format!("long|{f}|{limit:?}"), case.clone());
+                    if r.max_state_len > 512 {
+                        out.viol("C08", &format!("C08|stack|{f}"), &format!("state stack reached {} entries (capacity 512)", r.max_state_len), case);
+                    }
+                    out.end();
+                }
+            }
+        }
         let case = json!({"kind":"unlimited","root":root.json(),"profile":profile,"poll_budget":tiny_budget});
         out.begin(&case);
         let mut table = new_table();
@@ -780,6 +881,8 @@ pub fn run_c08(tier: &str, seed: u64) -> i32 {
     chk.need("tiny-limit runs", agg.c("tiny_limit_runs"), 20);
     chk.need("unlimited runs", agg.c("unlimited_runs"), 5);
     chk.need("deepest iteration reached", agg.m("deepest_iteration"), 33);
+    chk.need("runs after the longest accepted game record", agg.c("runs_after_longest_game_record"), 8);
+    chk.need("longest game record (states)", agg.m("longest_game_record"), 399);
     finalize(chk, &agg)
 }
 
@@ -803,6 +906,15 @@ pub fn replay_c08(case: &Value, out: &mut Out) {
             let r = search(out, &g, &mut table, Some(n), 0, 40_000_000, true);
             println!("limit {n}: deepest iteration {} polls {} panic {:?}", r.max_iter, r.polls, r.panicked);
             c08_judge(out, &r, Some(n), "replay", "replay", case.clone());
+        }
+        "long-record" => {
+            let limit = case["limit"].as_u64().map(|d| d as u8);
+            let r = search(out, &g, &mut table, limit, 0, case["poll_budget"].as_u64().unwrap_or(2_000_000), limit.is_some());
+            println!("game record of {} states, limit {limit:?}: deepest iteration {} state stack high water {} panic {:?}", g.len(), r.max_iter, r.max_state_len, r.panicked);
+            c08_judge(out, &r, limit, "replay", "replay", case.clone());
+            if r.max_state_len > 512 {
+                out.viol("C08", "replay", "state stack beyond capacity", case.clone());
+            }
         }
         _ => {
             let r = search(out, &g, &mut table, None, 0, case["poll_budget"].as_u64().unwrap_or(2_000_000), false);
